@@ -60,6 +60,26 @@ pub struct StateWrapper<Msg, State> {
 }
 
 /// Wrapper for timers.
+/// Read access to the link state for the verification machinery under /verif (only with
+/// `--cfg getong_stateright_verif`).
+#[cfg(getong_stateright_verif)]
+impl<Msg: Clone, State> StateWrapper<Msg, State> {
+    /// `(pending acks as (seq, dst, msg), last delivered as (src, seq), wrapped state, debug
+    /// rendering of the send-side sequencer state)`
+    #[allow(clippy::type_complexity)]
+    pub fn verif_parts(&self) -> (Vec<(Sequencer, Id, Msg)>, Vec<(Id, Sequencer)>, &State, String) {
+        (
+            self.msgs_pending_ack
+                .iter()
+                .map(|(seq, (dst, msg))| (*seq, *dst, msg.clone()))
+                .collect(),
+            self.last_delivered_seqs.iter().map(|(k, v)| (*k, *v)).collect(),
+            &self.wrapped_state,
+            format!("{:?}", self.next_send_seq),
+        )
+    }
+}
+
 #[derive(Clone, Debug, Eq, Hash, PartialEq, Serialize)]
 pub enum TimerWrapper<Timer> {
     Network,
